@@ -25,12 +25,13 @@ RULE = ("triples (class file, function/method file, argparse file) whose named t
         "interfaces, or are missing / empty / lack the target, surrounded by unrelated definitions x truth in {class, "
         "function, argparse_function} x 1..3 consecutive runs; a case = (triple, truth); distinct by content digest; "
         "non-trivial = at least one target differs from the truth")
-REQUIRED_MONITORS = ("sync.run", "target.reparsed", "outside.compared", "second-run.compared", "fs.snapshot.compared")
+REQUIRED_MONITORS = ("sync.run", "target.reparsed", "outside.compared", "second-run.compared", "fs.snapshot.compared",
+                     "target.defaults-vs-truth.compared")
 ASSUMPTIONS = ["interfaces are in the common domain of the three formats (scalar / Optional / Literal types, every "
                "parameter has a default, no return entry), so C02's normalisations suffice",
                "'code outside the named targets is unchanged' is decided on the AST (sync re-renders the whole file)"]
 T = ("int", "float", "str", "bool", "literal")
-D = ("int", "negint", "float", "bool", "str", "strspace")
+D = ("int", "negint", "float", "bool", "str", "strspace", "zero", "zero")  # incl. the falsy defaults 0, 0.0, False
 STATES = ("differs", "differs", "differs", "missing", "empty", "absent", "equal")
 KINDS = ("class", "function", "argparse_function")
 BUDGET_S = {"quick": 400, "thorough": 3000}
@@ -227,6 +228,24 @@ def run_case(ctx, P, stream, idx):
                                     "after sync --truth %s the %s target differs: %s %s %s expected %r got %r" % (
                                         truth, k, dd["where"], dd["field"], dd["how"], dd.get("exp"), dd.get("got")),
                                     dict(w, target=k, after=now[k], diff=dd))
+                    # independent of the emitters (the expectation above is itself produced by them): a plain scalar
+                    # default of the truth must be found, same value and same Python type, in every target
+                    P.monitor("target.defaults-vs-truth.compared")
+                    if list(got["params"]) == list(gold["params"]):
+                        for pn, gp in gold["params"].items():
+                            gd = gp.get("default")
+                            if "default" not in gp or type(gd) not in (int, float, bool) and not (
+                                    isinstance(gd, str) and not gd.startswith("```")):
+                                continue
+                            td = got["params"][pn].get("default", "<absent>")
+                            if type(td) is not type(gd) or td != gd:
+                                mech = None
+                                if k in ("function", "argparse_function") and st in ("differs", "equal") and unchanged_file:
+                                    mech = "sync.function-target-never-rewritten"
+                                P.deviation((mech + "|" if mech else "") + "sync.target-default-differs-from-truth|%s,t=%s,d=%s" % (
+                                    key_feats, irgen.type_kind_of(gp.get("typ")), irgen.default_kind_of(gp)),
+                                            "after sync --truth %s the %s target has %s=%r, the truth has %r" % (
+                                                truth, k, pn, td, gd), dict(w, target=k, after=now[k], param=pn))
                     # code outside the target is unchanged (AST level)
                     if st in ("differs", "equal", "truth", "absent") and srcs[k].strip():
                         P.monitor("outside.compared")
